@@ -135,5 +135,11 @@ func Pool(custom []*entities.InfoElement) []*entities.InfoElement {
 			pool = append(pool, ie)
 		}
 	}
-	return append(pool, custom...)
+	for _, ie := range custom {
+		if ie.DataType == entities.String && ie.Len != entities.VariableLength {
+			continue // fixed-length strings: see the named deviation in spec/Wire.tla
+		}
+		pool = append(pool, ie)
+	}
+	return pool
 }
